@@ -28,4 +28,9 @@ var MutatingPrograms = []string{
 	"(.b | . + 1)?, (try (.c * 2) catch .)", "try (.[2] | ltrimstr(1) | test(\"a\")) catch .", "[.. | objects | try (. + 1) catch .]", "try (.b | tonumber) catch .", "try ([.b] | implode) catch .", "try (.b | splits(\"a\")) catch .",
 	"try (1 - .b) catch .", "try (.b | .[1:]) catch .", "try ([1] | .[.b]) catch .", "[.b, .c] | map(try (. + 1) catch .)", ".b | [keys, to_entries[0], (tojson | length), tostring[:20]]?", "try (.[2] | has(0)) catch .", "try (.b | sort) catch .",
 	"(.b + 1)", ".[2] + 1", ".b | implode", ".b - 1",
+	// operands that outlive the operation, looked at by set-like and ordering natives (also long ones)
+	"[0,7] - .", ". - [0,7]", ". - .", "$v - .", ". - $v", "(.[0]?, ([0,7] - . | length)?, .[0]?)", "[range(40;0;-1)] | .[0], ([0,7] - . | length), .[0]", "[range(40;0;-1)] as $r | ([1] - $r | length), $r[0]", "(. - $v | length)?, $v[0]?, .[0]?",
+	"(.a - .c)?, .c[0]?", "[.[]?] - [.[]?] | length", "(index(.[1]?))?, .[0]?", "(indices(.[1]?) | length)?, .", "(inside(.))?, .[0]?", "(contains([.[0]?]))?, .[0]?", "(unique | length)?, .[0]?", "(group_by(.) | length)?, .[0]?", "(sort | .[0])?, .[0]?",
+	"(min, max)?, .[0]?", "(bsearch(.[0]?))?, .[0]?", "(any, all)?, .[0]?", "(flatten | length)?, .[0]?", "(join(\",\") | length)?, .[0]?", "(tojson | length), .[0]?", "(map(tostring) | add | length)?, .[0]?", "([limit(3; .[]?)] | length), .[0]?",
+	"(to_entries | length)?, .[0]?", "([paths] | length), .[0]?", "(implode? | length), .[0]?", "(@csv | length)?, .[0]?", "(transpose? | length), .[0]?", "([.[]? | numbers] | add), .[0]?", "(reverse | .[0])?, .[0]?", "($v | sort | .[0])?, $v[0]?", "($v | unique | length)?, $v[0]?",
 }
